@@ -416,6 +416,10 @@ def teleport(
             and isinstance(state.grid[position], Telepod)
             and state.grid[position].color == telepod.color
         ]
+        if not positions:
+            # no other telepod of this color, nowhere to be teleported to
+            return
+
         i = rng.choice(len(positions))
         state.agent.position = positions[i]
 
